@@ -72,7 +72,9 @@ EXPLANATION = (
     'C-typed temporaries and the usual arithmetic conversions followed per specialisation: '
     'int64/uint64 through double or any narrower type makes different elements compare '
     'equal; C13.D5.formula.exact-compare); (D6) metric names map to the right kernels (decision list of '
-    '_get_distance_method evaluated per name). Floating-point exactness and '
+    '_get_distance_method evaluated per name; a function the registry defines itself to adapt a foreign routine '
+    'forwards its (data, target) parameters and the metric name into the matching slots of that routine: '
+    'C13.D6.registry.adapter). Floating-point exactness and '
     'memory layouts are delegated to Cython typed-buffer indexing (no raw '
     'pointers: checked).')
 
@@ -2704,6 +2706,226 @@ def _global_ref(mod, fi, e, module_level=False):
     return None
 
 
+# Registry adapters.  Everything the registry hands out is called by the clustering
+# code as d(data, target) - the calling convention of the three native kernels
+# (X: one row per sample, y: the point the rows are compared with).  A function the
+# registry DEFINES itself (nested def / lambda) in order to adapt a foreign distance
+# routine therefore has to put its own first parameter into the routine's data slot,
+# its second into the target slot, and the metric name it was asked for into the
+# metric slot.  The signatures of the foreign routines are library facts:
+#   dotted name -> ((keyword, position) of data, of target, of the metric name or None,
+#                   metric the routine computes when none is passed)
+_DELEGATES = {
+    'msmbuilder.libdistance.dist': (('X', 0), ('y', 1), ('metric', 2), 'euclidean'),
+    'geometry.libdist.euclidean': (('X', 0), ('y', 1), None, None),
+    'geometry.libdist.manhattan': (('X', 0), ('y', 1), None, None),
+    'geometry.libdist.hamming': (('X', 0), ('y', 1), None, None),
+    'mdtraj.rmsd': (('target', 0), ('reference', 1), None, None),
+}
+
+
+def _delegate_sig(path):
+    if path is None:
+        return None
+    for k, v in _DELEGATES.items():
+        if path == k or path.endswith('.' + k):
+            return v
+    return None
+
+
+def _dotted(e):
+    """['a', 'b', 'c'] of the attribute chain a.b.c, None for anything else."""
+    parts = []
+    while isinstance(e, ast.Attribute):
+        parts.append(e.attr)
+        e = e.value
+    if not isinstance(e, ast.Name):
+        return None
+    return [e.id] + parts[::-1]
+
+
+def _callee_path(mod, fi, func, inner_bound):
+    """Dotted import path of the callee `func` of a call made inside a function
+    nested in fi's function: the base name is bound only by import statements of
+    the enclosing function (or by a module-level import and by nothing else).
+    None when it cannot be followed."""
+    parts = _dotted(func)
+    if parts is None or parts[0] in inner_bound:
+        return None
+    base = parts[0]
+    binds = _rebinds(fi, base)
+    if not binds:
+        if base in fi.rd.locals:
+            return None
+        ref = _global_ref(mod, fi, ast.Name(id=base, ctx=ast.Load()), True)
+        if ref is not None:
+            prefix = ref[0] + '.' + ref[1]
+        else:
+            imps = _module_imports(mod)
+            shadow = set(mod.functions) | set(mod.classes) | {t for s in mod.tree.body if isinstance(s, ast.Assign)
+                                                              for tt in s.targets for t in target_names(tt)}
+            if base in shadow or base not in imps or imps[base][1] is not None:
+                return None
+            prefix = imps[base][0]
+        return '.'.join([prefix] + parts[1:])
+    prefixes = set()
+    for s in binds:
+        if isinstance(s, ast.Import):
+            for a in s.names:
+                if a.asname == base:
+                    prefixes.add(a.name)
+                elif a.asname is None and a.name.split('.')[0] == base:
+                    prefixes.add(base)
+        elif isinstance(s, ast.ImportFrom) and not s.level and s.module:
+            for a in s.names:
+                if (a.asname or a.name) == base:
+                    prefixes.add(s.module + '.' + a.name)
+        else:
+            return None
+    if len(prefixes) != 1:
+        return None
+    return '.'.join([prefixes.pop()] + parts[1:])
+
+
+def _adapter_body(ad):
+    """The expression an adapter evaluates to: the body of a lambda, or the value
+    of the single `return` that makes up a nested def (docstring / pass apart)."""
+    if isinstance(ad, ast.Lambda):
+        return ad.body
+    body = [s for s in ad.body if not isinstance(s, ast.Pass)
+            and not (isinstance(s, ast.Expr) and isinstance(s.value, ast.Constant))]
+    if len(body) == 1 and isinstance(body[0], ast.Return) and body[0].value is not None:
+        return body[0].value
+    return None
+
+
+_SAME_ARRAY = ('np.asarray', 'np.asanyarray', 'np.ascontiguousarray', 'np.asfortranarray', 'np.array', 'np.require',
+               'numpy.asarray', 'numpy.asanyarray', 'numpy.ascontiguousarray', 'numpy.asfortranarray', 'numpy.array',
+               'numpy.require')
+
+
+def _carries(e, name):
+    """`e` is `name` or the same array values re-laid-out (np.asarray(name), ...)."""
+    while isinstance(e, ast.Call) and call_name(e) in _SAME_ARRAY and e.args and not isinstance(e.args[0], ast.Starred):
+        e = e.args[0]
+    return isinstance(e, ast.Name) and e.id == name
+
+
+def _slot(call, name):
+    """Where the array `name` is passed in `call`: list of int position | keyword
+    name, None for an occurrence inside star-arguments."""
+    out = []
+    starred = False
+    for i, a in enumerate(call.args):
+        if isinstance(a, ast.Starred):
+            starred = True
+            if name in names_loaded(a):
+                out.append(None)
+        elif _carries(a, name):
+            out.append(None if starred else i)      # position unknown behind *args
+    for k in call.keywords:
+        if k.arg is None:
+            if name in names_loaded(k.value):
+                out.append(None)
+        elif _carries(k.value, name):
+            out.append(k.arg)
+    return out
+
+
+def d6_adapters(ck, mod, fn, fi, metric):
+    """Every function the registry defines itself and returns forwards (data,
+    target, metric name) into the matching slots of the routine it adapts."""
+    rule = 'C13.D6.registry.adapter'
+    nested = {}
+    for s in walk_local(fn):
+        if isinstance(s, (ast.FunctionDef, ast.AsyncFunctionDef)):
+            nested.setdefault(s.name, []).append(s)
+    seen = set()
+    for r in walk_local(fn):
+        if not isinstance(r, ast.Return) or r.value is None:
+            continue
+        v = r.value
+        if isinstance(v, ast.Name) and v.id not in nested:
+            try:
+                v = fi.expand(v, stop=(metric,))
+            except Exception:
+                pass
+        ad = None
+        if isinstance(v, ast.Lambda):
+            ad = v
+        elif isinstance(v, ast.Name) and v.id in nested:
+            binds = _rebinds(fi, v.id)
+            if len(nested[v.id]) != 1 or any(b is not nested[v.id][0] for b in binds):
+                ck.missing(rule, 'returned name `%s` is bound more than once' % v.id)
+                continue
+            ad = nested[v.id][0]
+        if ad is None or id(ad) in seen:
+            continue
+        seen.add(id(ad))
+        a = ad.args
+        ps = [x.arg for x in getattr(a, 'posonlyargs', []) + a.args]
+        label = '%s(%s)' % (getattr(ad, 'name', 'lambda'), ', '.join(ps))
+        if isinstance(ad, ast.AsyncFunctionDef) or getattr(ad, 'decorator_list', None):
+            ck.missing(rule, 'adapter %s is decorated / asynchronous' % label)
+            continue
+        if len(ps) < 2 or a.vararg is not None:
+            ck.missing(rule, 'adapter %s does not take (data, target) as its first two positional parameters' % label)
+            continue
+        body = _adapter_body(ad)
+        if body is None:
+            ck.missing(rule, 'adapter %s is not a single forwarding expression' % label)
+            continue
+        inner = set(ps) | {x.arg for x in a.kwonlyargs} | ({a.kwarg.arg} if a.kwarg else set())
+        inner |= {n.id for n in ast.walk(ad) if isinstance(n, ast.Name) and isinstance(n.ctx, ast.Store)}
+        inner |= {x.arg for n in ast.walk(body) if isinstance(n, ast.Lambda) for x in n.args.args}
+        fwd = [c for c in ast.walk(body) if isinstance(c, ast.Call) and call_name(c) not in _SAME_ARRAY
+               and _slot(c, ps[0]) and _slot(c, ps[1])]
+        if len(fwd) != 1:
+            ck.missing(rule, 'adapter %s: no single call receives both `%s` and `%s`' % (label, ps[0], ps[1]))
+            continue
+        call = fwd[0]
+        path = _callee_path(mod, fi, call.func, inner)
+        sig = _delegate_sig(path)
+        if sig is None:
+            ck.missing(rule, 'adapter %s forwards to `%s`, a routine whose signature is not known' % (label, u(call.func)[:60]))
+            continue
+        (dk, dp), (tk, tp), mslot, default_metric = sig
+        sd, st = _slot(call, ps[0]), _slot(call, ps[1])
+        loads = [n for n in ast.walk(body) if isinstance(n, ast.Name) and n.id in (ps[0], ps[1])]
+        if len(sd) != 1 or len(st) != 1 or None in sd or None in st or len(loads) != 2:
+            ck.missing(rule, 'adapter %s: how `%s` and `%s` reach `%s` is not decided' % (label, ps[0], ps[1], u(call)[:80]))
+            continue
+        sd, st = sd[0], st[0]
+        shown = '%s -> %s' % (label, u(body)[:120])
+        if sd in (dk, dp) and st in (tk, tp):
+            ck.ok(rule, mod, call, shown, 'the adapter\'s first parameter is the data matrix of %s, its second the target' % path)
+        elif sd in (tk, tp) and st in (dk, dp):
+            ck.bad(rule, mod, call, '_get_distance_method', shown,
+                   'the registry\'s functions are called as d(data, target); this adapter hands its first parameter `%s` to %s '
+                   'as the target and its second `%s` as the data matrix: rows and target are exchanged' % (ps[0], path, ps[1]))
+            continue
+        else:
+            ck.missing(rule, 'adapter %s: `%s` / `%s` are passed in slots %r / %r of %s' % (label, ps[0], ps[1], sd, st, path))
+            continue
+        if mslot is None:
+            continue
+        mk, mp = mslot
+        marg = kwarg(call, mk)
+        if marg is None and len(call.args) > mp and not any(isinstance(x, ast.Starred) for x in call.args[:mp + 1]):
+            marg = call.args[mp]
+        shown_m = '%s: metric = %s' % (label, u(marg) if marg is not None else '<default>')
+        if any(isinstance(x, ast.Starred) for x in call.args) or any(k.arg is None for k in call.keywords):
+            ck.missing(rule, 'adapter %s: star-arguments in `%s`' % (label, u(call)[:80]))
+        elif marg is None:
+            ck.bad(rule, mod, call, '_get_distance_method', shown_m,
+                   'no metric name is handed to %s: it computes its default \'%s\' whatever name the registry was asked for'
+                   % (path, default_metric))
+        elif isinstance(marg, ast.Name) and marg.id == metric and metric not in inner and not _rebinds(fi, metric):
+            ck.ok(rule, mod, call, shown_m, 'the routine computes the metric the registry was asked for')
+        else:
+            ck.missing(rule, 'adapter %s: metric argument `%s` of %s is not the registry\'s own parameter' % (label, u(marg)[:60], path))
+
+
 def d6_registry(ck):
     rule = 'C13.D6.registry'
     mod = ck.repo.mod(CU)
@@ -2773,6 +2995,7 @@ def d6_registry(ck):
             ck.check(ok, rule, mod, fn, '_get_distance_method', 'callable(metric) -> metric',
                      'user callables are passed through', 'a user-supplied callable must be returned unchanged')
     ck.floor(rule, n, 4, 'metric names')
+    d6_adapters(ck, mod, fn, fi, metric)
 
 
 # ---------------------------------------------------------------------------
